@@ -31,7 +31,7 @@ theorem ConstInv.closed (cfg : Cfg) (tbl : List Nat) : Closed0 (ConstInv cfg tbl
     · exact publishTry_elim (P := fun x => x.fdtPkts = tbl ∧ x.cfg = cfg) _ now h h
     · exact h
   pkt := fun _ _ _ _ _ _ _ _ _ _ h _ _ _ _ _ => h
-  done := fun s _ _ c now _ _ _ h _ _ _ _ _ =>
+  done := fun s _ _ c now _ _ _ h _ _ _ =>
     ⟨by rw [transferDoneFile_fdtPkts]; exact h.1, by rw [transferDoneFile_cfg]; exact h.2⟩
   fdtPkt := fun _ _ _ _ _ _ _ _ _ h _ _ _ _ _ => h
   fdtDone := fun s _ c _ now _ _ h _ _ _ _ _ => by
